@@ -47,7 +47,7 @@ def regroup(rng, nodes, ids, depth):
 
 def cases(tier, seed, shard, nshards):
     rng = random.Random(f"{seed}:C04:{shard}")
-    n = (2000 if tier == "quick" else 60000) // nshards
+    n = (2000 if tier == "quick" else 30000) // nshards
     k = 3 if tier == "quick" else 5
     for _ in range(n):
         flat = gen_sched.gen_prog(rng, dyadic=True, nmax=8, depth=0, group_p=0.0,
@@ -111,7 +111,9 @@ def run_case(case, ctx):
     if pf["result"][0] != "return":
         ctx.violation("flat-run-did-not-return", f"{pf['result']}", trace=sched.compact(rf))
         return
-    for nested in case["nested"]:
+    for ni, nested in enumerate(case["nested"]):
+        if ni:
+            ctx.evaluations += 1   # every (flat, regrouping) pair is one evaluated case
         rn = sched.execute(nested, max_cycles=budget)
         pn = project(rn, leaf_ids)
         ctx.count("pairs_compared")
